@@ -26,7 +26,7 @@ pub fn run(ctx: &Ctx, out: &mut Out) {
         let coinductive = rng.chance(1, 3);
         let graph = rng.chance(1, 3);
         let (gtext_prog, gn) = if graph { graph_program(&mut rng, coinductive) } else { (String::new(), 0) };
-        let mut pg = ProgGen { rng: &mut rng, cfg: ProgCfg { coinductive, ..ProgCfg::default() } };
+        let mut pg = ProgGen { rng: &mut rng, cfg: ProgCfg { coinductive, growing: false, ..ProgCfg::default() } };
         let prog = pg.program();
         let text = if graph { gtext_prog.clone() } else { prog.render() };
         let goals: Vec<String> = (0..8).map(|_| if graph { graph_goal(pg.rng, gn) } else { goal_text(&pg.ground_goal(&prog, 2)) }).collect();
@@ -111,7 +111,26 @@ pub fn run(ctx: &Ctx, out: &mut Out) {
                     out.count("skipped_crashed_earlier");
                     continue;
                 }
-                let r = solve_fresh_budget(&text, &peeled, choice, budget);
+                let mut r = solve_fresh_budget(&text, &peeled, choice, budget);
+                if name == "recursive" && matches!(&r, Err(site) if site.contains("overflow depth reached")) {
+                    // the property speaks of searches within the overflow limit
+                    out.count("recursive_overflow_panic");
+                    continue;
+                }
+                if answer_kind(&r) == "ambig" {
+                    // the property speaks of searches that stay within the size limit: an `Ambiguous`
+                    // that disappears under wide limits was a truncation (max_size), not a verdict
+                    let wide = if name == "slg" {
+                        chalk_integration::SolverChoice::slg(100, None)
+                    } else {
+                        chalk_integration::SolverChoice::Recursive { overflow_depth: 500, caching_enabled: true, max_size: 100 }
+                    };
+                    let r2 = solve_fresh_budget(&text, &peeled, wide, budget);
+                    if answer_kind(&r2) != "ambig" {
+                        out.count("ambiguous_by_truncation_retried_with_wide_limits");
+                        r = r2;
+                    }
+                }
                 let kind = answer_kind(&r);
                 out.count(&format!("{}_{}", name, kind));
                 if let Err(site) = &r {
